@@ -197,7 +197,7 @@ func runStress(p StressParams, scratch string, idx int) *StressResult {
 	var phase atomic.Value
 	phase.Store("")
 	if p.Delays {
-		e.D.Delay = func(point string) {
+		e.D.SetDelay(func(point string) {
 			phase.Store(point)
 			x := atomic.AddUint64(&dseed, 0x9E3779B97F4A7C15)
 			x = (x ^ (x >> 30)) * 0xBF58476D1CE4E5B9
@@ -214,7 +214,7 @@ func runStress(p StressParams, scratch string, idx int) *StressResult {
 					time.Sleep(time.Duration(100+(x>>8)%2000) * time.Microsecond)
 				}
 			}
-		}
+		})
 	}
 	if err := e.Open(); err != nil {
 		res.Inconc = "open: " + err.Error()
